@@ -263,11 +263,17 @@ def check_array(c):
             want = [ev(x, y) for x, y in zip(a, b)]
         else:
             want = ('ERR', '#VALUE!')
+    elif isinstance(a, list) and isinstance(b, list) and len(a) != len(b):
+        want = ('ERR', '#VALUE!')       # nested arrays: a mismatch at the top level, whatever the elements are
     else:
         return out
     cls = None
     if isinstance(a, list) and isinstance(b, list) and len(a) != len(b) and 1 in (len(a), len(b)):
-        cls = 'one_element_array_broadcast'
+        one, other = (a, b) if len(a) == 1 else (b, a)
+        # a one-element array is broadcast (known finding) - but when its element is itself an array of yet another
+        # length, every reading of the property says #VALUE!
+        if not (isinstance(one[0], list) and len(one[0]) != len(other)):
+            cls = 'one_element_array_broadcast'
     if isinstance(want, list) and ('ERR', '#ERROR!') in [w for w in want if isinstance(w, tuple)] and got == ('ERR', '#ERROR!'):
         return out          # a Python exception in one element aborts the whole element-wise operation
     if want == ('ERR', '#VALUE!'):
